@@ -16,3 +16,105 @@ pub fn raw(z: &Zobrist) -> u64 {
 pub fn pv(i: u8, p: Piece, gold: bool) -> u64 {
     piece_value(Square::from_index(i), p, gold)
 }
+
+/// value the push/pull status contributes to the transposition hash (through the real lookup functions)
+pub fn pp_value(st: PushPullState) -> u64 {
+    zob(0).board_state_hash_with_push_pull_state(st)
+}
+fn any_sq() -> u8 {
+    let i: u8 = kani::any();
+    kani::assume(i < 64);
+    i
+}
+fn any_status_valid() -> PushPullState {
+    let k: u8 = kani::any();
+    let s = Square::from_index(any_sq());
+    let p: Piece = kani::any();
+    match k {
+        0 => PushPullState::None,
+        1 => {
+            kani::assume(p != Piece::Rabbit);
+            PushPullState::PossiblePull(s, p)
+        }
+        _ => {
+            kani::assume(p != Piece::Elephant);
+            PushPullState::MustCompletePush(s, p)
+        }
+    }
+}
+
+// ===========================================================================
+// C17: injectivity of the real lookup functions over their complete finite domains
+// ===========================================================================
+// @obl props=C17,C08 tier=quick kind=lemma mem=3 est=60
+// @fns piece_value
+// @clause forall (i,p,g) != (i',p',g') in 64 x 6 x 2: piece_value(i,p,g) != 0 and piece_value(i,p,g) != piece_value(i',p',g')  (so adding, removing, replacing or relocating one piece changes the hash)
+#[kani::proof]
+fn c17_piece_values_distinct() {
+    let (i, j) = (any_sq(), any_sq());
+    let (p, q): (Piece, Piece) = (kani::any(), kani::any());
+    let (g, h): (bool, bool) = (kani::any(), kani::any());
+    kani::cover!(i != j && p == q && g == h);
+    let a = pv(i, p, g);
+    let b = pv(j, q, h);
+    assert!(a != 0, "C17: no piece/square value is zero");
+    assert!((i == j && p == q && g == h) || a != b, "C17: piece/square values are pairwise distinct");
+}
+// @obl props=C17,C08,C12,C19 tier=quick kind=lemma mem=3 est=60
+// @fns push_piece_value pull_piece_value Zobrist::board_state_hash_with_push_pull_state
+// @clause forall valid statuses s != s' among the 641 (None, 5x64 pushes, 5x64 pulls): pp_value(s) != pp_value(s'); pp_value(None) == 0; the lookups do not panic for pushed non-elephants / pulling non-rabbits
+#[kani::proof]
+fn c17_status_values_distinct() {
+    let s = any_status_valid();
+    let t = any_status_valid();
+    kani::cover!(matches!(s, PushPullState::PossiblePull(_, _)) && matches!(t, PushPullState::MustCompletePush(_, _)));
+    assert!(pp_value(PushPullState::None) == 0);
+    assert!(s == t || pp_value(s) != pp_value(t), "C17: push/pull status values are pairwise distinct");
+}
+// @obl props=C17,C08 tier=quick kind=lemma mem=2 est=5
+// @fns step_value
+// @clause PLAYER_TO_MOVE != 0; STEP_VALUES pairwise distinct; step_value(a,b) == STEP[a]^STEP[b] != 0 for a != b
+#[kani::proof]
+fn c17_side_and_step_values() {
+    let a: usize = kani::any();
+    let b: usize = kani::any();
+    kani::assume(a < 4 && b < 4);
+    kani::cover!(a != b);
+    assert!(PLAYER_TO_MOVE != 0, "C17: side-to-move value is non-zero");
+    assert!(a == b || STEP_VALUES[a] != STEP_VALUES[b], "C17: step values are pairwise distinct");
+    assert!(step_value(a, b) == STEP_VALUES[a] ^ STEP_VALUES[b]);
+}
+
+// ===========================================================================
+// C08: the incremental updates, as XOR algebra over the table values
+// ===========================================================================
+// @obl props=C08,C05,C06,C09,C19 tier=quick kind=harness-contract mem=3 est=20
+// @fns Zobrist::initial Zobrist::pass Zobrist::exclude_step Zobrist::place_piece Zobrist::board_state_hash piece_value
+// @clause forall h, step<4, (sq,p,g), flags: initial()==INITIAL; pass(step)==h^PLAYER_TO_MOVE^STEP[0]^STEP[step]; exclude_step(step)==h^STEP[0]^STEP[step]; place_piece == h ^ piece_value(sq,p,g) ^ (PTM if a switch) ^ (STEP[0] if phase switch); piece_value(sq,p,g) == SQUARE_VALUES[type index (E,M,H,D,C,R) + 6*silver][sq]
+#[kani::proof]
+fn c08_zobrist_algebra() {
+    let h: u64 = kani::any();
+    let step: usize = kani::any();
+    kani::assume(step < 4);
+    let z = zob(h);
+    kani::cover!(true);
+    assert!(raw(&Zobrist::initial()) == INITIAL);
+    assert!(raw(&z.pass(step)) == h ^ PLAYER_TO_MOVE ^ STEP_VALUES[0] ^ STEP_VALUES[step], "C08: pass");
+    assert!(raw(&z.exclude_step(step)) == h ^ STEP_VALUES[0] ^ STEP_VALUES[step], "C08: exclude_step");
+    assert!(z.board_state_hash() == h);
+    let i = any_sq();
+    let p: Piece = kani::any();
+    let g: bool = kani::any();
+    let (sw_players, sw_phase): (bool, bool) = (kani::any(), kani::any());
+    let want = h ^ pv(i, p, g) ^ (if sw_players || sw_phase { PLAYER_TO_MOVE } else { 0 }) ^ (if sw_phase { STEP_VALUES[0] } else { 0 });
+    assert!(raw(&z.place_piece(p, Square::from_index(i), g, sw_players, sw_phase)) == want, "C08: place_piece");
+    let t = match p {
+        Piece::Elephant => 0,
+        Piece::Camel => 1,
+        Piece::Horse => 2,
+        Piece::Dog => 3,
+        Piece::Cat => 4,
+        Piece::Rabbit => 5,
+    } + if g { 0 } else { 6 };
+    assert!(pv(i, p, g) == SQUARE_VALUES[t][i as usize], "C08: piece_value is the table entry of (type, colour, square)");
+}
